@@ -398,7 +398,7 @@ type fsObs struct {
 func runC16(a *Args) error {
 	rng := NewRng(a.Seed)
 	w := NewCaseWriter(a, "C16", "", "case", "run")
-	w.Rule = "plugin names from a traversal grammar (../ runs of depth 0-8 x tails incl. absolute-looking ones, dot and empty names, inner/trailing separators, backslash, NUL, 255/256/300-byte names, valid and odd single components, random token strings) against plugin roots at depth 1-4 (several spellings) inside a sandbox with sentinel executables planted at the places traversal names resolve to; each name through SysPath/path.Join, Get+GetMetadata, Uninstall, and (subset) end-to-end verifier.Verify with the name in a signed critical verificationPlugin attribute; Install from file and from directory with notation-<name> file names (incl. '..', '.', backslash), overwrite on/off, existing plugin present/absent/broken; List over roots with directories, files, symlinks, FIFOs. Observed: error class, executed argv[0] (marker written by the sentinels), full before/after snapshot diff of the sandbox. non-trivial = the name is not a plain single component, or the operation executed/removed/wrote something; distinct = distinct (op, root, name, source layout)"
+	w.Rule = "plugin names from a traversal grammar (../ runs of depth 0-8 x tails incl. absolute-looking ones, dot and empty names, inner/trailing separators, backslash, NUL, 255/256/300-byte names, valid and odd single components, random token strings) against plugin roots at depth 1-4 (several spellings) inside a sandbox with sentinel executables planted at the places traversal names resolve to; each name through SysPath/path.Join, Get+GetMetadata, Uninstall, and (subset) end-to-end verifier.Verify with the name in a signed critical verificationPlugin attribute, and (verify-x) with the attribute not critical / not a string, a malformed minimum-version attribute, a verifier without manager, and a signing chain the policy does NOT trust (lookup precedes authenticity); Install from file and from directory with notation-<name> file names (incl. '..', '.', backslash), overwrite on/off, existing plugin present/absent/broken; List over roots with directories, files, symlinks, FIFOs. Observed: error class, executed argv[0] (marker written by the sentinels), full before/after snapshot diff of the sandbox. non-trivial = the name is not a plain single component, or the operation executed/removed/wrote something; distinct = distinct (op, root, name, source layout)"
 	w.Assumptions = []string{
 		"no symbolic links inside the sandbox for Get/Uninstall/Install (List is exercised with symlinks); a symlinked plugin directory is followed by the OS and is outside the model",
 		"what a plugin executable prints is an input of the model (node field m); versions are 1.0.<v>",
